@@ -9,6 +9,7 @@ list, so the theorems hold for every order in which Go may walk the map — the 
 that was defect D22 cannot come back without breaking `gen_canResolve`.
 -/
 import Gribi.Gen.CanResolve
+import Gribi.Gen.CheckCandidate
 import Gribi.Gen.CanDelete
 import Gribi.Props.GenEquiv.Base
 import Gribi.Model.Rib
@@ -150,7 +151,34 @@ theorem gen_canResolve (s : Rib) (d ni : NI) (key : Key) (p : Payload) (hni : ni
         · by_cases hh : s.has (p.grpNI, Key.nhg p.grp) = true <;> simp [hg, hn, hkn, hh, tryOut]
         · simp [hg, hn, hkn, tryOut]
 
-theorem gen_canResolve_translated : Gen.canResolve_problem = none := rfl
+/-- the candidate built from one entry passes `checkCandidate` (exactly one entry, no unsupported
+table): the `none` given for that oracle in `gen_canResolve` / `gen_canDelete` is what the code computes -/
+theorem gen_checkCandidate_single (key : Key) (p : Payload) :
+    ∀ a, (candOf key p).Afts = some a → Gen.checkCandidate a = none := by
+  intro a h
+  cases key <;> simp [candOf, emptyAfts] at h <;> subst h <;> simp [Gen.checkCandidate]
+
+/-- and it refuses an empty candidate, one with two entries, or one with an unsupported table -/
+theorem gen_checkCandidate (a : CandAfts) :
+    Gen.checkCandidate a = none ↔
+      a.MacEntry = [] ∧ a.PolicyForwardingEntry = [] ∧
+      a.Ipv6Entry.length + a.LabelEntry.length + a.Ipv4Entry.length + a.NextHopGroup.length + a.NextHop.length = 1 := by
+  unfold Gen.checkCandidate
+  by_cases h1 : a.MacEntry.length ≠ 0
+  · simp [h1]; intro h; simp [h] at h1
+  · by_cases h2 : a.PolicyForwardingEntry.length ≠ 0
+    · simp [h1, h2]; intro _ h; simp [h] at h2
+    · have e1 : a.MacEntry = [] := by simpa using h1
+      have e2 : a.PolicyForwardingEntry = [] := by simpa using h2
+      simp only [h1, h2, if_false, e1, e2, true_and]
+      generalize a.Ipv6Entry.length + a.LabelEntry.length + a.Ipv4Entry.length + a.NextHopGroup.length + a.NextHop.length = n
+      by_cases hz : n = 0
+      · simp [hz]
+      · by_cases hg : n > 1
+        · simp [hz, hg]; omega
+        · simp [hz, hg]; omega
+
+theorem gen_canResolve_translated : Gen.canResolve_problem = none ∧ Gen.checkCandidate_problem = none := ⟨rfl, rfl⟩
 
 /-! ### canDelete -/
 
